@@ -271,6 +271,10 @@ def r14_3(ctx, rr):
             rr.violate(key, "%s derives a %s from the length of the backend rather than from len * bit_width: spare words of the backend are visited (the function is applied to / overwrites storage outside the logical contents)" % (b.key, hits[0][1]), F.loc(hits[0][0]), {"all": [h[1] for h in hits]})
 
 
+SHIFT_METHODS = {"checked_shr": True, "checked_shl": True, "wrapping_shr": False, "wrapping_shl": False,
+                 "overflowing_shr": False, "overflowing_shl": False, "unchecked_shr": False, "unchecked_shl": False}
+
+
 @rule("R05.4", props=["C05"], floor=4, title="plain shifts by the bit width (range 0..=BITS) are guarded against the full width")
 def r05_4(ctx, rr):
     """A `<<`/`>>`/`<<=`/`>>=` whose amount is the bit width itself overflows when bit_width == W::BITS
@@ -297,6 +301,15 @@ def r05_4(ctx, rr):
                     w = amt if is_width0(amt) else amt[2]
                     guarded = K.entails(atom_ne(w, BITS)) or K.entails(atom_le(w, BITS, True))
                     hits.append((n, guarded, W.debug_depth > 0))
+            elif k == "MethodCall" and n.get("name") in SHIFT_METHODS and n.get("args"):
+                # the method forms: checked_* yields None at the full width (the caller supplies the value),
+                # wrapping_/overflowing_/unchecked_ reduce the amount modulo BITS (same defect as the plain shift)
+                amt = W.expand(W.T.term(n["args"][0]))
+                if is_width(amt):
+                    BITS = ("def", "common_traits::AsBytes::BITS")
+                    w = amt if is_width0(amt) else amt[2]
+                    guarded = SHIFT_METHODS[n["name"]] or K.entails(atom_ne(w, BITS)) or K.entails(atom_le(w, BITS, True))
+                    hits.append((n, guarded, W.debug_depth > 0))
         Walker(F, b, on_node=on_node, inline=inl).run()
         if not hits:
             continue
@@ -308,3 +321,130 @@ def r05_4(ctx, rr):
             rr.ob(guarded, key=key + str(guarded), sample={"fn": b.key, "shift": show(F, n)[:100], "guarded": guarded})
             if not guarded:
                 rr.violate(key, "%s shifts by the bit width (`%s`) without excluding bit_width == W::BITS: at full width the shift overflows (panic in debug builds, unspecified value in release)" % (b.key, show(F, n)[:100]), F.loc(n))
+
+
+def expand_atom(W, a):
+    if a[0] == "or":
+        return ("or", tuple(tuple(expand_atom(W, x) for x in alt) for alt in a[1]))
+    if a[0] in ("le", "ne"):
+        return (a[0], W.expand(a[1]), W.expand(a[2])) + tuple(a[3:])
+    return a
+
+
+def flat_atoms(atoms):
+    for a in atoms:
+        if a[0] == "or":
+            for alt in a[1]:
+                yield from flat_atoms(alt)
+        else:
+            yield a
+
+
+@rule("R05.8", props=["C05"], floor=3, title="assertions on the bit width admit the whole domain 0..=W::BITS (none narrower than bit_width <= BITS)")
+def r05_8(ctx, rr):
+    """Every width from 0 to the word size is legal. An assertion (release or debug) in bit_field_vec.rs whose
+    condition relates only the bit width and W::BITS must therefore be implied by bit_width <= BITS.
+    Exception: the *_unaligned accessors, whose documented contract restricts the width."""
+    F = ctx.F()
+    BITS = ("def", "common_traits::AsBytes::BITS")
+    bodies = [b for b in F.fns() if not is_derived(b) and b.file.endswith("bits/bit_field_vec.rs") and "unaligned" not in b.key]
+
+    def is_width0(t):
+        return (t[0] == "field" and t[2] == "bit_width") or (t[0] == "var" and t[1] == "bit_width") or (t[0] == "call" and t[1].endswith("::bit_width"))
+
+    def only_width_and_bits(a):
+        if a[0] == "or":
+            return all(all(only_width_and_bits(x) for x in alt) for alt in a[1])
+        if a[0] not in ("le", "ne"):
+            return False
+        A, B = a[1], a[2]
+        return (is_width0(A) and B == BITS) or (is_width0(B) and A == BITS)
+
+    for b in bodies:
+        hits = []
+
+        def on_node(W, n, K, hits=hits):
+            if n.get("k") == "If" and diverges(F, n["th"]) and not ("el" in n and diverges(F, n["el"])):
+                pas = [expand_atom(W, a) for a in cond_atoms(W.T, n["c"], False)]
+                if pas and all(only_width_and_bits(a) for a in pas):
+                    ws = [x for a in flat_atoms(pas) for x in (a[1], a[2]) if is_width0(x)]
+                    K0 = Known([atom_le(ws[0], BITS)])
+                    hits.append((n, all(K0.entails(a) for a in pas)))
+        Wk = Walker(F, b)
+        Wk.on_if = on_node
+        Wk.run()
+        for n, ok in hits:
+            rr.instances += 1
+            key = "%s:width-domain" % short_fn(b.key)
+            rr.ob(ok, key=key, sample={"fn": b.key, "assert": show(F, n["c"])[:100]})
+            if not ok:
+                rr.violate(key, "%s asserts `%s` on the bit width: the condition fails for a legal width in 0..=W::BITS (the operation panics, in debug builds at least, instead of behaving like a vector of W::BITS-bit values)" % (b.key, show(F, n["c"])[:100]), F.loc(n))
+
+
+@rule("R10.7", props=["C10", "C12"], floor=6, title="apply_in_place_unchecked: every unchecked backend access is below the number of words holding the contents (non-empty and non-zero width established first)")
+def r10_7(ctx, rr):
+    """The function is reached from the safe apply_in_place for every vector state. Its unchecked accesses
+    use the indices 0, read_idx in 1..NW, read_idx - 1, word_number(+1) with word_number < NW - 1 and
+    NW.saturating_sub(1), with NW = ceil(len * bit_width / BITS) (or the backend length). All are below NW
+    provided NW >= 1, i.e. provided the early returns for an empty vector and for bit width 0 come first."""
+    F = ctx.F()
+    b = F.one(r"^<bits::bit_field_vec::BitFieldVec<W, B> as traits::bit_field_slice::BitFieldSliceMut<W>>::apply_in_place_unchecked$")
+    inl = ctx.memo("inliner", lambda: make_inliner(F))
+    slf = ("var", "self", b.params[0]["id"])
+    be = ("field", slf, "bits")
+
+    def is_nw(t):
+        if t[0] == "call" and t[1].endswith("div_ceil") and len(t[2]) == 2 and is_bits(t[2][1]):
+            a = t[2][0]
+            return a[0] == "op" and a[1] == "*" and {a[2], a[3]} == {("field", slf, "bit_width"), ("field", slf, "len")}
+        if t[0] == "call" and t[1].endswith("len") and len(t[2]) == 1 and mentions(t[2][0], lambda x: x == be):
+            return True
+        return False
+
+    def is_last(t):
+        return t[0] == "call" and t[1].endswith("saturating_sub") and len(t[2]) == 2 and t[2][1] == ("int", 1) and is_nw(t[2][0])
+
+    def is_bits(t):
+        return t[0] == "def" and t[1].endswith("BITS")
+
+    sites = []
+    state = {"nonempty": None}
+
+    def on_node(W, n, K):
+        if n.get("k") != "MethodCall" or n["name"] not in ("get_unchecked", "get_unchecked_mut") or W.debug_depth:
+            return
+        if not mentions(W.T.term(n["recv"]), lambda x: x == be):
+            return
+        if state["nonempty"] is None:
+            ne_len = any(a[0] == "b" and a[2] is False and a[1][0] == "call" and a[1][1].endswith("is_empty") and a[1][2] == (slf,) for a in K.atoms) or K.entails(atom_ne(("field", slf, "len"), ("int", 0)))
+            ne_bw = K.entails(atom_ne(("field", slf, "bit_width"), ("int", 0)))
+            state["nonempty"] = (ne_len, ne_bw)
+        nonempty = all(state["nonempty"])
+        raw = W.T.term(n["args"][0])
+        idx = W.expand(raw)
+        ok = False
+        how = ""
+        if idx == ("int", 0) or is_last(idx):
+            ok = nonempty
+            how = "needs NW >= 1 (vector not empty: %s, bit width not 0: %s before the first access)" % state["nonempty"]
+        else:
+            cands = set()
+            for a in K.atoms:
+                if a[0] == "le":
+                    cands.add(a[1])
+                    cands.add(a[2])
+            for X in cands:
+                Xe = W.expand(X)
+                if is_nw(Xe) and K.entails(atom_le(raw, X, True)):
+                    ok = True
+                elif is_last(Xe) and nonempty and K.entails(atom_le(raw, X)):
+                    ok = True
+            how = "needs index < NW from the loop bounds"
+        sites.append((n, ok, how, tshow(idx)[:80], K.show()[:8]))
+    Walker(F, b, on_node=on_node, inline=inl).run()
+    for n, ok, how, idx, known in sites:
+        rr.instances += 1
+        key = "apply_in_place_unchecked:backend-index-below-word-count:%s" % show(F, n["args"][0])[:40]
+        rr.ob(ok, key=key, sample={"site": show(F, n)[:80], "index": idx, "rule": how})
+        if not ok:
+            rr.violate(key, "apply_in_place_unchecked (reached from the safe apply_in_place for every vector) accesses the backend with `%s` (index %s) and the index is not established to be below the number of words holding the contents: %s; established: %s" % (show(F, n)[:80], idx, how, "; ".join(known) or "nothing"), F.loc(n))
